@@ -1,7 +1,7 @@
 """Drawing write ops (and configurations) with Hypothesis, from the case's vocabulary and the current ledger."""
 from hypothesis import strategies as st
 
-from .lru import lru_from, lru_list, maybe_text, url_lru, relative_of
+from .lru import lru_from, lru_list, maybe_text, url_lru, relative_of, lru_under
 from .rules import DEFAULT_RULE_NAMES, ANCHORED_RULE_NAMES
 from .ops import Config
 from .spec import stems_of
@@ -45,14 +45,27 @@ def config_strategy(draw, v, backends=("file",), with_rules=True, overwrite=(Tru
 
 @st.composite
 def anchor_strategy(draw, v, known):
-    """rule anchors: mostly host-level prefixes (scheme + 1..3 hosts), sometimes any known LRU"""
+    """rule anchors: short host-level prefixes (scheme, scheme + 1..3 hosts) so that they lie on the path of many pages;
+    two times out of three a stem-prefix of a known LRU when there is one"""
     known = [k for k in known if k.startswith(b"s:")]
-    if known and draw(st.integers(0, 2)) == 0:
+    if known and draw(st.integers(0, 2)) != 0:
         base = draw(st.sampled_from(known))
         sts = stems_of(base)
-        k = draw(st.integers(1, len(sts)))
-        return b"".join(sts[:k])
-    return draw(url_lru(v, min_hosts=1, max_hosts=3, max_paths=draw(st.sampled_from([0, 0, 0, 1]))))
+        k = draw(st.sampled_from([1, 2, 2, 3, 3, 4, len(sts)]))
+        return b"".join(sts[:min(k, len(sts))])
+    scheme = draw(st.sampled_from([b"s:http|", b"s:http|", b"s:https|"]))
+    n = draw(st.sampled_from([0, 1, 1, 1, 2, 2, 3]))
+    hosts = []
+    if n:
+        hosts.append(draw(st.sampled_from(v.hosts[:2])))
+        for _ in range(n - 1):
+            hosts.append(draw(st.sampled_from(v.hosts[2:])))
+    while len(hosts) >= 2 and hosts[-1] == b"h:www|" and hosts[-2] == b"h:www|":
+        hosts.pop()
+    tail = b""
+    if draw(st.integers(0, 5)) == 0:
+        tail = draw(st.sampled_from(v.paths))
+    return scheme + b"".join(hosts) + tail
 
 
 @st.composite
@@ -85,13 +98,20 @@ def op_strategy(draw, v, led, weights, backend="file", history=()):
         # re-submission of an earlier page/link request, unchanged
         prev = [o for o in history if o[0] in ("page", "pages", "links", "batch")]
         return draw(st.sampled_from(prev[-8:]))
+    bases = sorted(set(led.rules) | set(p for p in led.prefix_map if p.startswith(b"s:")))
     if kind == "page":
+        if bases and v.mode != "raw" and draw(st.integers(0, 2)) == 0:
+            return ("page", T(draw(lru_under(v, draw(st.sampled_from(bases))))), draw(st.booleans()))
         return ("page", T(draw(lru_from(v, known))), draw(st.booleans()))
     if kind == "pages":
         ls = draw(lru_list(v, known, 0, 4))
+        if bases and v.mode != "raw" and draw(st.integers(0, 2)) == 0:
+            ls.append(draw(lru_under(v, draw(st.sampled_from(bases)))))
         return ("pages", [T(l) for l in ls], draw(st.sampled_from([True, True, True, False])))
     if kind in ("links", "batch"):
         pool = draw(lru_list(v, known, 1, 4))
+        if bases and v.mode != "raw" and draw(st.integers(0, 2)) == 0:
+            pool.append(draw(lru_under(v, draw(st.sampled_from(bases)))))
         pgs = sorted(led.pages)
         if pgs:
             extra = draw(st.lists(st.sampled_from(pgs), min_size=0, max_size=3))
